@@ -93,7 +93,8 @@ class Evaluator:
         self.fields = set(fields or ())
         self.props = props or {}          # name -> callable(evaluator) -> value
         self.rec_names = set(rec_names or REC_NAMES)
-        self.node_param = node_param or self.sig.node_name
+        self.node_param = (self.sig.node_name if node_param is None
+                           else (node_param or None))
         self.assume_len = assume_len or {}   # field -> int
         self.self_is_node = self_is_node
         self.env: dict = {}
@@ -131,7 +132,7 @@ class Evaluator:
             return ("varargs",)
         if n == self.sig.kwarg:
             return ("kwargs",)
-        if n in self.sig.params:
+        if n in self.sig.params or n == self.sig.node_name:
             return ("param", n)
         return ("global", n)
 
